@@ -71,6 +71,19 @@ def cases(tier, seed):
     for me in METHODS:
         out.append({"grid": "h222", "jitter": 3, "clamps": [[0, "free"]], "link": None, "method": me, "iterations": 2, "frame": 0})
         out.append({"grid": "s33", "jitter": 3, "clamps": [[0, "plane"], [1, "plane"], [2, "plane"], [3, "plane"]], "link": None, "method": me, "iterations": 2, "frame": 0})
+    # close to degenerate WITH links: a clamp step that is skipped (degenerate trial cell) or rolled back must take the
+    # followers back as well
+    for me in METHODS:
+        for cl in ("line", "line_long", "plane"):
+            out.append({"grid": "s33", "jitter": 3, "clamps": [[0, cl]], "link": "translation", "method": me, "iterations": 2, "frame": 0})
+            out.append({"grid": "s22b", "jitter": 2, "clamps": [[0, cl]], "link": "translation", "method": me, "iterations": 2, "frame": 0})
+        out.append({"grid": "h222", "jitter": 3, "clamps": [[0, "line_long"]], "link": "translation2", "method": me, "iterations": 2, "frame": 0})
+        # a boundary vertex clamped on the line between its two boundary neighbours (at either bound it coincides
+        # with one of them: the trial cell is degenerate and the step is skipped), an interior vertex linked to it
+        for it in (1, 2):
+            # (frame 0 only: in a rotated frame the quality of these right-angled cells raises - known finding
+            # C14-regular-quad-raises-degenerate - before the optimisation starts)
+            out.append({"grid": "s22c", "jitter": 0, "clamps": [[0, "line_nb"]], "link": "translation", "method": me, "iterations": it, "frame": 0})
     # optimize() called twice on one optimizer (every clamp type; links), invariants after each call
     for ci, cl in enumerate(CLAMPS):
         out.append({"grid": "h222", "jitter": 1, "clamps": [[0, cl]], "link": None, "method": METHODS[ci % 4], "iterations": 2, "frame": frames[ci % 2], "runs": 2})
@@ -155,12 +168,21 @@ def build(case):
             # the interior vertex sits on the line between the (displaced) a and b, off-centre
             P[movable[0]] = P[movable[1]] + (0.5 - 0.4 * lvl) * (P[movable[2]] - P[movable[1]])
         kind = "hex"
+    elif g == "s22c":
+        P = np.array([[0, 0, 0], [1.4, 0, 0], [2, 0, 0], [-1, 1, 0], [1.4, 1, 0], [3, 1, 0], [0, 2, 0], [1, 2, 0], [2, 2, 0]], float)
+        cells = [[0, 1, 4, 3], [1, 2, 5, 4], [3, 4, 7, 6], [4, 5, 8, 7]]
+        movable = [1, 4]
+        kind = "quad"
     else:
         n = int(g[1])
         P = np.array([[i, j, 0.0] for j in range(n + 1) for i in range(n + 1)], float)
         cells = [[j * (n + 1) + i, j * (n + 1) + i + 1, (j + 1) * (n + 1) + i + 1, (j + 1) * (n + 1) + i] for j in range(n) for i in range(n)]
         movable = [j * (n + 1) + i for j in range(1, n) for i in range(1, n)]
+        if g == "s22b":
+            movable.append(n * (n + 1) + 1)  # follower: the middle point of the upper side (a boundary point)
         for k, v in enumerate(movable):
+            if g == "s22b" and k == 1:
+                continue
             d = jitter_vec(k + 2) * lvl
             d[2] = 0.0
             P[v] += d
@@ -180,14 +202,15 @@ def make_clamp(kind_name, pos, fr, k, flat_normal=None):
     u = u / np.linalg.norm(u)
     if kind_name == "free":
         return cb.FreeClamp(pos), (lambda p: 0.0)
-    if kind_name == "line":
-        p1, p2 = pos - 0.4 * u, pos + 0.4 * u
+    if kind_name in ("line", "line_long"):
+        reach = 0.4 if kind_name == "line" else 1.1  # (line_long reaches beyond the neighbouring vertices: trial cells tangle)
+        p1, p2 = pos - reach * u, pos + reach * u
         cl = cb.LineClamp(pos, p1, p2)
 
         def dist(p):
             t = float((p - p1) @ u)
             off = np.linalg.norm((p - p1) - t * u)
-            out = max(0.0, -t, t - 0.8)
+            out = max(0.0, -t, t - 2 * reach)
             return max(off, out)
 
         return cl, dist
@@ -279,6 +302,18 @@ def run_case(case):
             flat_k = flat
             if case.get("alias") and kind == "hex":
                 pos = mesh.vertices[to_grid[v]].position  # the vertex's own array, as the library's examples do
+            if cname == "line_nb":
+                a0, b0 = P[0].copy(), P[2].copy()
+                cl = cb.LineClamp(pos, a0, b0)
+
+                def dist(p, a0=a0, b0=b0):
+                    u = (b0 - a0) / np.linalg.norm(b0 - a0)
+                    t = float((p - a0) @ u)
+                    return max(np.linalg.norm((p - a0) - t * u), max(0.0, -t, t - np.linalg.norm(b0 - a0)))
+
+                opt.add_clamp(cl)
+                clamped[to_grid[v]] = (cl, dist, cname)
+                continue
             if cname == "line_ab":
                 a_arr, b_arr = (mesh.vertices[to_grid[movable[j]]].position for j in (1, 2))
                 a0, b0 = a_arr.copy(), b_arr.copy()
